@@ -52,6 +52,47 @@ CHECKS = {
     design_ref="DESIGN.md 4.3, 5.3, 7 (C14)",
     note="Trusts TLC, the harness's RFC decoder rfcdec (validated against Wire.tla by C06), expat for FDT XML, and the read-only hook snapshot for the instant at which an automatic FDT publication happened. Sampled (seeded) from the TLC-enumerated families in the quick tier, complete families in the thorough tier.",
     technique="TLA+ property monitor (SenderProps.tla) evaluated by TLC on traces recorded from the real Sender driven by TLC-generated behaviours (Gen_Sender.tla)"),
+ "C01": dict(
+    category="model_checking",
+    text="Configuration grid enumerated by TLC (object shape x 5 FEC schemes x parity x cenc x in-band/FDT-only FTI and CENC x publish mode x interleave x multiplex, three concurrent objects over two priority queues, transfer counts 1-2, receive-once on/off, MD5 on/off): every packet of the real session pushed in order into a real MultiReceiver; the monitor requires for every object the sender accepted exactly one (receive-once) / one per transfer exact complete writer, no failure, no writer for anything else, and metadata (location, type, lengths, MD5, groups, ETag, cache directive, cenc, OTI) equal to what the sender was given. The sender-side monitor additionally checks that the in-band FTI carries exactly the object's transfer length.",
+    design_ref="DESIGN.md 4.4, 4.6, 5.3, 7 (C01)",
+    note="Trusts TLC, the harness's scripted ObjectWriter/Builder and digests, expat for the FDT XML of the recorded sessions, Partition.tla for the block structure. The decode rule is the one stated by the property (RS: any k distinct symbols; others: all k source symbols), not flute's. Quick tier samples (seeded) the TLC-enumerated schedules; thorough tier replays far more or all of them.",
+    technique="TLA+ property monitor (ReceiverProps.tla) evaluated by TLC on traces recorded from the real MultiReceiver fed TLC-enumerated fault schedules (Gen_Recv.tla) over sessions recorded from the real Sender"),
+
+ "C02": dict(
+    category="model_checking",
+    text='Every subset (loss) of every recorded session of <= 13 packets, every multiset with multiplicity <= 2 of sessions of <= 8 packets, subsets of carousel sessions of <= 16 packets (order preserved) are enumerated by TLC over the real packet lists; the monitor computes Recoverable(o) in TLA+ from the delivered (SBN, ESI) sets and requires an exact complete delivery whenever it holds.',
+    design_ref="DESIGN.md 4.4, 4.6, 5.3, 7 (C02)",
+    note="Trusts TLC, the harness's scripted ObjectWriter/Builder and digests, expat for the FDT XML of the recorded sessions, Partition.tla for the block structure. The decode rule is the one stated by the property (RS: any k distinct symbols; others: all k source symbols), not flute's. Quick tier samples (seeded) the TLC-enumerated schedules; thorough tier replays far more or all of them.",
+    technique="TLA+ property monitor (ReceiverProps.tla) evaluated by TLC on traces recorded from the real MultiReceiver fed TLC-enumerated fault schedules (Gen_Recv.tla) over sessions recorded from the real Sender"),
+
+ "C03": dict(
+    category="model_checking",
+    text="All permutations x subsets of recorded sessions of <= 6 packets, duplicates, mixtures of two transfers, and every object packet of small sessions with payload first/middle/last byte flipped, truncated by 1-3 bytes or extended, with MD5 checking on and off: complete is only ever reported with the sender's exact bytes (always for unaltered packets; with altered packets whenever MD5 is announced and checked), never complete and failed on one writer.",
+    design_ref="DESIGN.md 4.4, 4.6, 5.3, 7 (C03)",
+    note="Trusts TLC, the harness's scripted ObjectWriter/Builder and digests, expat for the FDT XML of the recorded sessions, Partition.tla for the block structure. The decode rule is the one stated by the property (RS: any k distinct symbols; others: all k source symbols), not flute's. Quick tier samples (seeded) the TLC-enumerated schedules; thorough tier replays far more or all of them.",
+    technique="TLA+ property monitor (ReceiverProps.tla) evaluated by TLC on traces recorded from the real MultiReceiver fed TLC-enumerated fault schedules (Gen_Recv.tla) over sessions recorded from the real Sender"),
+
+ "C09": dict(
+    category="model_checking",
+    text='Writer scripts enumerated by TLC (builder answering store / already-received / abort, open failing, write failing at call 1..3, packets in order up to any index or object-before-FDT, receiver dropped at any point) plus the lossy, corrupted and late-join histories: one typestate automaton per writer id (open first and once, writes only between a successful open and the terminal, writes form a prefix of the object, at most one terminal, nothing after it, complete only with exactly the announced content, every opened writer terminated by the time of drop).',
+    design_ref="DESIGN.md 4.4, 4.6, 5.3, 7 (C09)",
+    note="Trusts TLC, the harness's scripted ObjectWriter/Builder and digests, expat for the FDT XML of the recorded sessions, Partition.tla for the block structure. The decode rule is the one stated by the property (RS: any k distinct symbols; others: all k source symbols), not flute's. Quick tier samples (seeded) the TLC-enumerated schedules; thorough tier replays far more or all of them.",
+    technique="TLA+ property monitor (ReceiverProps.tla) evaluated by TLC on traces recorded from the real MultiReceiver fed TLC-enumerated fault schedules (Gen_Recv.tla) over sessions recorded from the real Sender"),
+
+ "C16": dict(
+    category="model_checking",
+    text='Every join offset inside the first carousel cycle of recorded carousel sessions (5 schemes, in-band / FDT-only OTI and CENC, 1-2 objects, delay / interval carousel, both FDT modes): the receiver is fed the suffix up to the end of the second full cycle after the join and must have delivered every carouselled object exactly.',
+    design_ref="DESIGN.md 4.4, 4.6, 5.3, 7 (C16)",
+    note="Trusts TLC, the harness's scripted ObjectWriter/Builder and digests, expat for the FDT XML of the recorded sessions, Partition.tla for the block structure. The decode rule is the one stated by the property (RS: any k distinct symbols; others: all k source symbols), not flute's. Quick tier samples (seeded) the TLC-enumerated schedules; thorough tier replays far more or all of them.",
+    technique="TLA+ property monitor (ReceiverProps.tla) evaluated by TLC on traces recorded from the real MultiReceiver fed TLC-enumerated fault schedules (Gen_Recv.tla) over sessions recorded from the real Sender"),
+
+ "C19": dict(
+    category="model_checking",
+    text='Receiver clock skews from -30 years to +30 years x transit-delay classes around the FDT duration (0, D-3, D+3, 2D; the +-2 s band excluded) x D in {10 s, 30 s, 1 h} x SCT present/absent x expiry check on/off x object before/after FDT x cleanup in between, all combinations: delivery starts only through an instance unexpired on the estimated sender clock, the outcome equals the one computed on the sender clock, nothing is counted as failed for an expired announcement.',
+    design_ref="DESIGN.md 4.4, 4.6, 5.3, 7 (C19)",
+    note="Trusts TLC, the harness's scripted ObjectWriter/Builder and digests, expat for the FDT XML of the recorded sessions, Partition.tla for the block structure. The decode rule is the one stated by the property (RS: any k distinct symbols; others: all k source symbols), not flute's. Quick tier samples (seeded) the TLC-enumerated schedules; thorough tier replays far more or all of them.",
+    technique="TLA+ property monitor (ReceiverProps.tla) evaluated by TLC on traces recorded from the real MultiReceiver fed TLC-enumerated fault schedules (Gen_Recv.tla) over sessions recorded from the real Sender"),
 }
 
 NOT_YET = "check under construction in this round (specification and harness not finished yet)"
